@@ -13,14 +13,14 @@ import types
 ROOT = os.path.dirname(os.path.dirname(os.path.abspath(__file__)))
 sys.path.insert(0, ROOT)
 STATS = {}
-MODS = ["contracts.options", "contracts.inventory", "contracts.warnings", "contracts.slug", "contracts.directives", "contracts.parse_html", "contracts.invreader", "contracts.lines", "contracts.render", "contracts.links", "contracts.footnotes", "contracts.heading"]
+MODS = ["contracts.options", "contracts.inventory", "contracts.warnings", "contracts.slug", "contracts.directives", "contracts.parse_html", "contracts.invreader", "contracts.lines", "contracts.render", "contracts.links", "contracts.footnotes", "contracts.heading", "contracts.render2"]
 
 
 def _wrap(target, fn, funcheck, fs):
     import inspect
 
     sig = inspect.signature(fn)
-    st = STATS.setdefault(target, {"calls": 0, "pre_held": 0, "checked": 0, "fired": []})
+    st = STATS.setdefault(target, {"calls": 0, "pre_held": 0, "checked": 0, "fired": [], "assumed": bool(fs.trusted)})
 
     @functools.wraps(fn)
     def wrapper(*a, **k):
@@ -79,20 +79,27 @@ def _docutils_shim():
     from docutils import nodes
 
     nodes.Node.kind = property(lambda self: type(self).__name__)
-    nodes.Node.text = property(lambda self: str(self) if isinstance(self, nodes.Text) else self.astext())
+    # (the text of a system_message is the message it carries - its first paragraph -, not docutils' "source:line: (LEVEL) ..." rendering)
+    nodes.Node.text = property(lambda self: str(self) if isinstance(self, nodes.Text) else (
+        self.children[0].astext() if isinstance(self, nodes.system_message) and self.children else self.astext()))
     nodes.Element.format = property(lambda self: self.get("format"))
     nodes.Element.id_link = property(lambda self: bool(self.get("id_link", False)))
 
 
 def pytest_configure(config):
+    install()
+
+
+def install(mods=None):
+    """Wrap every repository function that has a contract - proved or assumed (`trusted`) - so that each call evaluates it."""
     from harness import funcheck
     from pyvc.spec import REG
 
     _docutils_shim()
 
-    funcheck.load_contracts(MODS)
+    funcheck.load_contracts(mods or MODS)
     for target, fs in list(REG.funs.items()):
-        if target.startswith("ext:") or fs.trusted or getattr(fs, "until", None):
+        if target.startswith("ext:") or getattr(fs, "until", None):
             continue  # (a prefix contract says nothing about the function's return)
         try:
             modn, qual = target.split(":")
